@@ -126,14 +126,15 @@ def specSubs : List Sub → Int → Option Entry → Option Entry
 
 
 /-- A classic file body as the scan sees it: plain lines and indirect objects.  An object is its
-header line `hl` (`n g obj` + EOL) followed by `body` (everything up to and including `endobj`). -/
+whole text from the first digit of `n g obj` through `endobj`; the line the scan reads at its start
+may end inside the object (`1 0 obj⏎<<…>>⏎endobj`) or beyond it (`1 0 obj<<…>>endobj⏎`). -/
 inductive Item
   | line (l : Bytes)
-  | obj (num gen : Nat) (hl body : Bytes)
+  | obj (num gen : Nat) (text : Bytes)
 
 def Item.bytes : Item → Bytes
   | .line l => l
-  | .obj _ _ hl body => hl ++ body
+  | .obj _ _ text => text
 
 def itemsBytes : List Item → Bytes
   | [] => []
@@ -143,24 +144,23 @@ def itemsBytes : List Item → Bytes
 def scanSpec : Nat → List Item → List (Int × Entry) → List (Int × Entry)
   | _, [], offs => offs
   | pos, .line l :: r, offs => scanSpec (pos + l.length) r offs
-  | pos, .obj n g hl body :: r, offs =>
-    scanSpec (pos + (hl ++ body).length) r (insertOff offs (n : Int) ⟨none, pos, g⟩)
+  | pos, .obj n g text :: r, offs =>
+    scanSpec (pos + text.length) r (insertOff offs (n : Int) ⟨none, pos, g⟩)
 
 /-- Well-formedness of the body relative to what follows it (`after`): every plain line is a
-line that is neither a cue nor the trailer keyword; every object header stands at a line start,
-is a line, matches the cue with its own numbers, and `ends` knows where the object stops
+line that is neither a cue nor the trailer keyword; every object starts at a line start, the line
+read there matches the cue with the object's own numbers, and `ends` knows where the object stops
 (`nextobject()`); no object is an object stream (classic files). -/
 def ItemsOK (ends : List (Nat × Nat × Val)) : Nat → List Item → Bytes → Prop
   | _, [], _ => True
   | pos, .line l :: r, after =>
     takeLine (l ++ (itemsBytes r ++ after)) = some (l, l.length) ∧ startsWith l kwTrailer = false ∧
     matchCue l = none ∧ ItemsOK ends (pos + l.length) r after
-  | pos, .obj n g hl body :: r, after =>
-    takeLine (hl ++ (body ++ (itemsBytes r ++ after))) = some (hl, hl.length) ∧ startsWith hl kwTrailer = false ∧
-    matchCue hl = some (n, g) ∧
-    (∃ v, lookupNat ends pos = some (pos + (hl ++ body).length, v) ∧ ∀ id k t, v ≠ .objstm id k t) ∧
-    ItemsOK ends (pos + (hl ++ body).length) r after
-
+  | pos, .obj n g text :: r, after =>
+    (∃ l k, takeLine (text ++ (itemsBytes r ++ after)) = some (l, k) ∧ startsWith l kwTrailer = false ∧
+      matchCue l = some (n, g)) ∧ text ≠ [] ∧
+    (∃ v, lookupNat ends pos = some (pos + text.length, v) ∧ ∀ id k t, v ≠ .objstm id k t) ∧
+    ItemsOK ends (pos + text.length) r after
 
 def Val.isObjstm : Val → Bool
   | .objstm _ _ _ => true
@@ -172,12 +172,13 @@ def itemsOKb (ends : List (Nat × Nat × Val)) : Nat → List Item → Bytes →
   | pos, .line l :: r, after =>
     takeLine (l ++ (itemsBytes r ++ after)) == some (l, l.length) && !startsWith l kwTrailer &&
     matchCue l == none && itemsOKb ends (pos + l.length) r after
-  | pos, .obj n g hl body :: r, after =>
-    takeLine (hl ++ (body ++ (itemsBytes r ++ after))) == some (hl, hl.length) && !startsWith hl kwTrailer &&
-    matchCue hl == some (n, g) &&
+  | pos, .obj n g text :: r, after =>
+    (match takeLine (text ++ (itemsBytes r ++ after)) with
+     | some (l, _) => !startsWith l kwTrailer && matchCue l == some (n, g)
+     | none => false) && !text.isEmpty &&
     (match lookupNat ends pos with
-     | some (e, v) => e == pos + (hl ++ body).length && !v.isObjstm
+     | some (e, v) => e == pos + text.length && !v.isObjstm
      | none => false) &&
-    itemsOKb ends (pos + (hl ++ body).length) r after
+    itemsOKb ends (pos + text.length) r after
 
 end PdfVerif.Xref
